@@ -17,6 +17,7 @@ struct Elem {
     int key;
     int cleared;
     mutable int vst;        // visit state scratch for the walk oracle
+    size_t slot;            // index in Tree::all (O(1) removal)
     struct cstl_bintree_node bn;
     struct cstl_rbtree_node rn;
 };
@@ -75,7 +76,7 @@ int walk_cb(const void *e, cstl_bintree_visit_order_t ord, void *p)
 }
 
 struct Tree;
-struct ClearCtx { Tree *t; std::vector<Elem *> *expect; size_t calls; bool bad; };
+struct ClearCtx { Tree *t; std::unordered_set<const void *> *expect; size_t calls; bool bad; };
 ClearCtx *g_clear_ctx;
 
 struct Tree {
@@ -94,7 +95,7 @@ struct Tree {
         rb = isrb;
         tag = t;
         model.clear();
-        liveset.clear();
+        fresh_clear(liveset);
         n = 0;
         next_id = 0;
         if (rb) cstl_rbtree_init(&rt, cmp_cb, &g_priv_token, offsetof(Elem, rn));
@@ -107,13 +108,14 @@ struct Tree {
         e->id = next_id++;
         e->key = key;
         e->cleared = 0;
+        e->slot = all.size();
         all.push_back(e);
         return e;
     }
     void kill(Elem *e)
     {
-        auto it = std::find(all.begin(), all.end(), e);
-        if (it != all.end()) { *it = all.back(); all.pop_back(); }
+        size_t i = e->slot;
+        if (i < all.size() && all[i] == e) { all[i] = all.back(); all[i]->slot = i; all.pop_back(); }
         memset(e, 0xDD, sizeof *e);
         free(e);
     }
@@ -159,9 +161,8 @@ void clear_cb(void *obj, void *priv)
     c->calls++;
     if (priv != &g_priv_token) { c->bad = true; return; }
     Elem *e = (Elem *)obj;
-    bool found = false;
-    for (Elem *x : *c->expect) if (x == e) found = true;
-    if (!found) { c->bad = true; return; }
+    if (!c->expect->count(e)) { c->bad = true; return; }    // unknown or already handed over: do not touch it
+    c->expect->erase(e);
     if (++e->cleared > 1) { c->bad = true; return; }
     c->t->kill(e);      // the callee takes ownership: poison and free
 }
@@ -431,6 +432,7 @@ void apply(Tree &t, CaseCtx &cx, int op, uint8_t a, uint8_t b, int K, size_t max
     }
     case WALK_STOP: {
         int dir = a & 1;
+        if (t.n > 5000) { CNT("noop.walk_stop_big"); TRACE("%s walk_stop noop (big tree)", t.tag); break; }
         // full walk first (reference for the prefix), then the stopping walk
         WalkCtx full{{}, 3 * t.n + 4, 0, 0, false};
         t.foreach(&full, dir);
@@ -450,15 +452,14 @@ void apply(Tree &t, CaseCtx &cx, int op, uint8_t a, uint8_t b, int K, size_t max
         break;
     }
     case CLEAR: {
-        std::vector<Elem *> expect;
-        for (auto &kv : t.model) for (Elem *e : kv.second) expect.push_back(e);
+        std::unordered_set<const void *> expect;
         bool two_children = false;
-        for (Elem *e : expect) if (t.node(e)->l && t.node(e)->r) two_children = true;
+        for (auto &kv : t.model) for (Elem *e : kv.second) { expect.insert(e); if (t.node(e)->l && t.node(e)->r) two_children = true; }
         ClearCtx cc{&t, &expect, 0, false};
         g_clear_ctx = &cc;
         size_t n = t.n;
         t.model.clear();
-        t.liveset.clear();
+        fresh_clear(t.liveset);
         t.n = 0;
         const char *kind = t.rb ? "rbtree" : "bintree";
         LIB(if (t.rb) cstl_rbtree_clear(&t.rt, clear_cb, &g_priv_token); else cstl_bintree_clear(&t.bt, clear_cb, &g_priv_token));
@@ -541,8 +542,9 @@ void vf_run(const uint8_t *data, size_t len)
         if (o == 0xFE) { if (g_want_state) { snapshot(); state_marked = true; } continue; }
         int op = tab[o % tab.size()];
         nops++;
-        bool audits = g_want_state ? my >= last_idx : (total_records <= 24 || (my % 8) == 7);
-        g_rbchecks = g_want_state ? my >= last_idx : true;
+        bool big = total_records > 5000;     // scale runs: audits and invariant walks are O(n), so they are sparse
+        bool audits = g_want_state ? my >= last_idx : big ? (my % 8192) == 8191 : (total_records <= 24 || (my % 8) == 7);
+        g_rbchecks = g_want_state ? my >= last_idx : big ? (my % 2048) == 2047 : true;
         for (int i = 0; i < 2; i++) {
             if (!use[i]) continue;
             Obs oa, ob;
@@ -594,6 +596,13 @@ void vf_gen(Rng &r, std::vector<uint8_t> &out)
     out.push_back(r.chance(5, 6) ? 0 : r.byte());
     out.push_back(c15 ? (r.chance(2, 3) ? 5 : r.byte()) : (r.chance(1, 2) ? (uint8_t)(1 + r.below(4)) : r.byte()));
     size_t n = r.chance(3, 5) ? 1 + r.below(24) : r.chance(7, 8) ? 1 + r.below(200) : 1 + r.below(1000);
+    if (!c15 && r.chance(1, 25000)) {
+        // scale run: ~10^5 nodes (every counter / index width), random keys over 1000 values so that the unbalanced tree stays shallow
+        n = 70000 + r.below(70000);
+        out[1] = 7;
+        out[3] = 0;
+        out[4] = 1;
+    }
     for (size_t i = 0; i < n; i++) { out.push_back(r.byte() % 251); out.push_back(r.byte()); out.push_back(r.byte()); }
 }
 
